@@ -20,7 +20,11 @@ pub(super) fn generate_enum_definitions<'a, 'schema: 'a>(
     let traits = options
         .all_response_derives()
         .chain(options.all_variable_derives())
-        .filter(|d| !&["Serialize", "Deserialize", "Default"].contains(d))
+        // The serde impls are written by hand below; the traits may be given by path (`serde::Serialize`).
+        .filter(|d| {
+            let last_segment = d.rsplit("::").next().unwrap_or(d).trim();
+            !["Serialize", "Deserialize", "Default"].contains(&last_segment)
+        })
         // Use BTreeSet instead of HashSet for a stable ordering.
         .collect::<std::collections::BTreeSet<_>>();
     let derives = render_derives(traits.into_iter());
